@@ -103,16 +103,23 @@ pub fn run(_params: &[i64], ops: &Rows, mon: &mut Mon) -> Rows {
                     drop(left);
                 }
                 1 => {
+                    // every other case the sink already HOLDS two items: a collecting callback appends, it never replaces (C15_feed is about any sink state)
                     let mut store: Vec<Tok> = Vec::new();
+                    let pre = if vals.len() % 2 == 1 { 2 } else { 0 };
+                    for i in 0..pre { store.push(Tok::mk(990 + i as i64)); }
                     cnt = feed(method, items, OpaqueCallback::from(&mut store));
                     rest = take_drops();
-                    got = store.iter().map(|t| t.val()).collect();
+                    let held: Vec<i64> = store.iter().map(|t| t.val()).collect();
+                    if held.len() < pre || held[..pre] != [990i64, 991][..pre] { mon.fail(format!("case{} a Vec sink that held [990, 991][..{}] before the feed holds {:?} afterwards: it lost or reordered its earlier contents", k, pre, held)); got = held; } else { got = held[pre..].to_vec(); }
                 }
                 _ => {
                     let mut store: VecDeque<Tok> = VecDeque::new();
+                    let pre = if vals.len() % 2 == 1 { 2 } else { 0 };
+                    for i in 0..pre { store.push_back(Tok::mk(990 + i as i64)); }
                     cnt = feed(method, items, store.from_extend());
                     rest = take_drops();
-                    got = store.iter().map(|t| t.val()).collect();
+                    let held: Vec<i64> = store.iter().map(|t| t.val()).collect();
+                    if held.len() < pre || held[..pre] != [990i64, 991][..pre] { mon.fail(format!("case{} a from_extend sink that held [990, 991][..{}] before the feed holds {:?} afterwards: it lost or reordered its earlier contents", k, pre, held)); got = held; } else { got = held[pre..].to_vec(); }
                 }
             }
             let _ = take_drops();
